@@ -316,6 +316,17 @@ void snoopy_configuration_dtor ()
         CFG->syslog_ident_format_malloced = SNOOPY_FALSE;                 /* Set this to false         - REQUIRED (see above) */
         CFG->syslog_ident_format          = SNOOPY_SYSLOG_IDENT_FORMAT;   /* Set this to default value - REQUIRED (see above) */
     }
+
+    /*
+     * Reset all the other settings too
+     *
+     * Without thread safety the configuration data structure is reused by the
+     * next call. If snoopy.ini disappears in the meantime (or no longer sets an
+     * option), values parsed from it now (error_logging, syslog_facility,
+     * syslog_level, the two message length limits, configfile_found/parsed)
+     * would otherwise stay in force.
+     */
+    snoopy_configuration_setDefaults(CFG);
 }
 
 
